@@ -641,6 +641,9 @@ func reqFor(m Method, key string, kind int) (msg interface{}, keyOut string, key
 		return (*Msg)(nil), "", true
 	case 4:
 		return "just a string", "", true
+	case 5:
+		// the locator names a field promoted from a nil embedded message pointer
+		return &EmbMsg{Other: "o"}, "", true
 	}
 	if kind == 2 {
 		msg = &Msg{}
